@@ -49,7 +49,13 @@ func genC10(t *rapid.T) *C10Case {
 				// (and sends timer Heartbeats meanwhile), then answers
 				T := int64(tolT(g.hb))
 				add(rig.Step{Op: "advance", Dt: T + T/10 + 1e6})
-				add(rig.Step{Op: "in", In: g.heartbeat("")})
+				if rapid.Bool().Draw(t, "answerProbe") {
+					add(rig.Step{Op: "in", In: g.heartbeat("")})
+				} else {
+					// the peer's first message after the probe is a ResendRequest
+					b, e := g.resendRange()
+					add(rig.Step{Op: "in", In: g.resend(b, e)})
+				}
 				g.sent += 2
 				break
 			}
